@@ -1,7 +1,11 @@
 """C14 - retention removes only data that has expired. See DESIGN.md section C14."""
 import json
+import os
+import sys
 import vlib
 from vlib import coq_z, coq_bool, coq_list
+sys.path.insert(0, os.path.dirname(os.path.abspath(__file__)))
+import xcases  # noqa: E402
 
 PID = "C14"
 
@@ -49,7 +53,7 @@ def main(ck):
     ck.cov["trusted_base"] = ["Coq 8.16.1 kernel + vm_compute (cases evaluation, Example)", "no axioms (Print Assumptions: closed)",
                               "Go harness cmd/c14, python driver props/C14/run.py"]
     ck.coq_audit(["C14"])
-    ok = ck.coq_build(["C14/Proofs.vo", "C14/Inv.vo", "C14/Corr.vo"])
+    ok = ck.coq_build(["C14/Proofs.vo", "C14/Inv.vo", "C14/Corr.vo", "C14/XCorr.vo"])
     if ok:
         ck.coq_props(["C14/Props.v"])
         if ck.tier == "thorough":
@@ -108,3 +112,114 @@ def main(ck):
         ck.nofail_detail = {"kind": "correspondence", "explanation": "model and implementation observables differ; the direct "
                             "oracle (deleted => expired under the policy in force; expired+listed => removed) found no failing input",
                             "case": i, "event_index": k, "trace": traces[i]}
+
+    run_ix(ck, binp, ok)
+
+
+# ---------------------------------------------------------------------------------------------
+# extended traces: catalogue built by the real meta.Data, shard groups + index groups, one node per partition
+
+def sig_index_outlived(f):
+    """C14-index-outlived-by-shard: the shard's group ends after the index group that holds the shard's index."""
+    fa = f.get("facts", {})
+    return f["kind"] == "index-before-shard" and fa.get("sg_end", 0) > fa.get("ig_end", 0)
+
+
+def sig_prune_neighbour(f):
+    """C14-prune-marks-neighbour: the element marked is not one the pass deleted; it is the first element >= a deleted
+    id v of a group whose id range contains v although v is not a member (interleaved or gapped id ranges)."""
+    if f["kind"] not in ("prune-wrong-mark", "group-dropped-with-live-shard"):
+        return False
+    if f.get("facts", {}).get("earlier_wrong_mark") == 1:
+        return True
+    ids = sorted(f.get("ids") or [])
+    m = f.get("facts", {}).get("marked")
+    for v in f.get("victims") or []:
+        if ids and v not in ids and ids[0] <= v <= ids[-1] and m == min(x for x in ids if x >= v):
+            return True
+    return False
+
+
+SIGS = [("C14-index-outlived-by-shard", sig_index_outlived), ("C14-prune-marks-neighbour", sig_prune_neighbour)]
+VARIANTS = ["index-choice as-is / prune as-is", "index-choice as-is / prune repaired",
+            "index-choice repaired / prune as-is", "index-choice repaired / prune repaired"]
+
+
+def run_ix(ck, binp, coq_ok):
+    n = 320 if ck.tier == "quick" else 6000
+    rc, out = ck.run([binp, "ix", str(n)], timeout=2400)
+    traces = [json.loads(l) for l in out.splitlines() if l.startswith('{"mode":"ix"')]
+    if rc != 0 or len(traces) != n:
+        ck.broken.append("harness c14 ix failed rc=%d traces=%d: %s" % (rc, len(traces), out[-500:]))
+        return
+    shard = 20
+    files = [("xcases%d" % (i // shard), xcases.xfile(traces[i:i + shard])) for i in range(0, len(traces), shard)]
+    res = ck.coq_eval_many(files) if coq_ok else []
+    verdicts = []
+    for idx, (rc2, o) in enumerate(res):
+        v = xcases.parse_verdicts(o) if rc2 == 0 else None
+        want = len(traces[idx * shard:(idx + 1) * shard])
+        if v is None or len(v) != want:
+            ck.broken.append("model evaluation (ix) failed on shard %d: %s" % (idx, o[-400:]))
+            verdicts += [None] * want
+        else:
+            verdicts += v
+    # which variant of the model does the working tree implement? (one that agrees with every trace)
+    alive = [True] * 4
+    first_bad = None
+    for i, v in enumerate(verdicts):
+        if v is None:
+            continue
+        for k in range(4):
+            if v[k] != 0:
+                alive[k] = False
+        if first_bad is None and all(x != 0 for x in v):
+            first_bad = (i, min(v) - 1)
+    impl = [VARIANTS[k] for k in range(4) if alive[k]]
+    ck.cov["ix_variant_of_tree"] = impl
+    ck.cov["ix_traces_distinguishing"] = sum(1 for v in verdicts if v and len(set(x == 0 for x in v)) > 1)
+    # direct oracle
+    oracle_fail = False
+    reported = 0
+    known = {}
+    for i, t in enumerate(traces):
+        for f in t["oracle"]:
+            fid = next((name for name, sig in SIGS if sig(f)), None)
+            if fid and ck.match_finding(fid):
+                known.setdefault(fid, [0, "case %d event %d: %s" % (i, f["event"], f["msg"])])[0] += 1
+                continue
+            oracle_fail = True
+            if reported < 3:
+                reported += 1
+                ck.violation({"kind": "direct-oracle", "mode": "ix", "what": f, "inside_signature_of": fid, "case": i,
+                              "trace": {k: t[k] for k in ("policies", "ptnum", "events")}, "obs": t["obs"]})
+    for fid, (cnt, first) in sorted(known.items()):
+        ck.known_finding(fid, "%d failing inputs inside the signature; first: %s" % (cnt, first))
+    if coq_ok and not any(alive) and not oracle_fail:
+        i, k = first_bad if first_bad else (next(j for j, v in enumerate(verdicts) if v and v[0] != 0), 0)
+        ck.broken.append("correspondence C14 (ix) model/implementation differs on case %d at event %d" % (i, k))
+        ck.nofail_detail = {"kind": "correspondence-ix", "explanation": "no variant of the extended model reproduces the implementation's "
+                            "catalogue / node observables on every trace; the direct oracle found no failing input",
+                            "case": i, "event_index": k, "verdict_per_variant": verdicts[i],
+                            "trace": {kk: traces[i][kk] for kk in ("policies", "ptnum", "events")}, "obs": traces[i]["obs"]}
+    hist = {}
+    nontriv = set()
+    for t in traces:
+        for e in t["events"]:
+            hist["ix:" + e["kind"]] = hist.get("ix:" + e["kind"], 0) + 1
+        if t["nontrivial"]:
+            nontriv.add(json.dumps(t["events"], sort_keys=True))
+    ck.cov["evaluations"] += len(traces)
+    ck.cov["distinct_nontrivial"] += len(nontriv)
+    ck.cov["traces_validated_against_impl"] += sum(1 for v in verdicts if v and any(x == 0 for x in v)) if coq_ok else 0
+    ck.cov["event_histogram"].update(hist)
+    ck.cov["ix"] = {"traces": len(traces), "index_deletions": sum(t["ixdel"] for t in traces),
+                    "traces_with_shared_index": sum(1 for t in traces if t["shared"]),
+                    "index_deletions_not_judged": sum(t["skipped"] for t in traces),
+                    "oracle_failures_by_kind": {}}
+    for t in traces:
+        for f in t["oracle"]:
+            d = ck.cov["ix"]["oracle_failures_by_kind"]
+            d[f["kind"]] = d.get(f["kind"], 0) + 1
+    ck.cov["rule"] += (" || ix: traces of create/mat/alter(d,sgd,igd)/expand/restart/tick per partition over the real meta.Data; "
+                       "non-trivial = a pass deleted a shard or an index")
